@@ -331,8 +331,62 @@ def check_pair(ffname, first, second, naming, acc, sample=False, heavy_only=Fals
         acc.violation(sig, desc, case)
 
 
+def check_system(layout, acc):
+    """Several molecules in one system through RepairGraph(delete_unknown=True).run_system (how bin/martinize2 calls it): 'K'
+    = a residue of the force field with scrambled names, stripped hydrogens and a missing heavy atom, 'U' = a residue the force
+    field does not know. Every K molecule must come back as the block (complete, canonical names), every U molecule must be
+    gone, and the order of the others is kept."""
+    import vermouth
+    from vermouth.processors.repair_graph import RepairGraph
+    ff = load_ff('amber')
+    case = {'layer': 'system', 'layout': list(layout)}
+    system = vermouth.System(force_field=ff)
+    expected = []
+    blocks = ['ALA', 'SER', 'GLY', 'VAL']
+    for midx, kind in enumerate(layout):
+        mol = vermouth.molecule.Molecule(force_field=ff)
+        if kind == 'U':
+            for key, (name, element) in enumerate((('Q1', 'C'), ('Q2', 'O'))):
+                mol.add_node(key, atomname=name, element=element, resname='ZZZ', resid=1, chain='L')
+            mol.add_edge(0, 1)
+        else:
+            blockname = blocks[midx % len(blocks)]
+            names, elements, edges = block_info(ff.blocks[blockname])
+            heavy = [i for i, e in enumerate(elements) if e != 'H']
+            keep = heavy[:-1] if len(heavy) > 3 else heavy          # the last heavy atom is missing, all hydrogens are missing
+            pos = {orig: new for new, orig in enumerate(keep)}
+            for new, orig in enumerate(keep):
+                mol.add_node(new, atomname='X%d' % new, element=elements[orig], resname=blockname, resid=1, chain='A')
+            mol.add_edges_from((pos[a], pos[b]) for a, b in edges if a in pos and b in pos)
+            expected.append((blockname, sorted(names)))
+        system.molecules.append(mol)
+    try:
+        with common.LogCapture() as log:
+            RepairGraph(delete_unknown=True).run_system(system)
+    except Exception as err:   # pylint: disable=broad-except
+        acc.case(outcome='exc')
+        acc.violation('c04:system-exception', 'RepairGraph.run_system raised %r' % (err,), case)
+        return
+    got = []
+    for mol in system.molecules:
+        resnames = {d.get('resname') for _, d in mol.nodes(data=True)}
+        got.append((sorted(resnames)[0] if len(resnames) == 1 else sorted(map(str, resnames)),
+                    sorted(str(d.get('atomname')) for _, d in mol.nodes(data=True) if not d.get('PTM_atom'))))
+    acc.case(nontrivial='U' in layout and 'K' in layout, outcome=('system', len(got), tuple(layout)))
+    if got != expected:
+        kept_unknown = any(name == 'ZZZ' for name, _ in got)
+        sig = 'c04:system-unknown-molecule-kept' if kept_unknown else 'c04:system-molecule-not-repaired'
+        acc.violation(sig, 'system %r: molecules after repair %r; expected the known ones, repaired, in order: %r' % (
+            list(layout), [(n, len(a)) for n, a in got], [(n, len(a)) for n, a in expected]), case)
+
+
 def work(task):
     common.bind_repo()
+    if task[0] == 'systems':
+        acc = Acc()
+        for layout in task[1]:
+            check_system(layout, acc)
+        return acc
     if task[0] == 'requests':
         # residues repaired against a reference patched with requested mutations / modifications
         from props import c19_repair
@@ -406,6 +460,11 @@ def run(ctx):
     for part in common.pmap(work, [('requests', chunk) for chunk in common.chunked(items, max(1, len(items) // 8))]):
         acc += part
     ctx.layer('requested-mutations-and-modifications', acc)
+    layouts = [l for n in range(1, 5 if ctx.quick else 6) for l in itertools.product('KU', repeat=n)]
+    acc = Acc()
+    for part in common.pmap(work, [('systems', chunk) for chunk in common.chunked(layouts, 4)]):
+        acc += part
+    ctx.layer('systems-with-unknown-molecules', acc)
 
 
 def replay(case):
@@ -415,6 +474,9 @@ def replay(case):
         from props import c19_repair
         found = c19_repair.replay(case)
         return [('c04:requested-' + sig.split(':', 1)[1], desc) for sig, desc in found]
+    if case.get('layer') == 'system':
+        check_system(tuple(case['layout']), acc)
+        return [(s, d) for s, d, _ in acc.violations]
     if case.get('layer') == 'pairs':
         check_pair(case['ff'], case['first'], case['second'], case['naming'], acc, heavy_only=case.get('heavy_only', False))
         return [(s, d) for s, d, _ in acc.violations]
